@@ -1576,7 +1576,9 @@ def fmt_profile(run):
             continue
         got = dict(folded(name))
         g = prog.find("BitVec>::" + name)
-        run.check(got == want, R, "%s|numeric-profile|%s" % (R, name), g[0].loc() if g else "-",
+        # the kinds (radix and integer type) are what a reader of the format depends on; how many format sites print them is a
+        # matter of code layout (a header printed field by field or in a loop) and is not compared
+        run.check(set(got) == set(want), R, "%s|numeric-profile|%s" % (R, name), g[0].loc() if g else "-",
                   "%s prints its numbers as %s" % (name, got),
                   "%s prints its numbers as %s; the format's rules (audited) require %s — a field printed in another radix or from a wider type no longer decodes" % (name, got, want))
     # end-of-data tests
@@ -1636,8 +1638,10 @@ def bit_source(run, R="TAB-fmt"):
             w = spec["wrappers"].get(name)
             if w and c.endswith("::" + w[0]):
                 continue
-            # a private helper of the formatter module (not itself a formatter) is held to the same rule where it is defined
-            if re.search(r"^util::bitvec_format\w*::(<impl util::bitvec::BitVec>::)?(?!format_)\w+$", c) and prog.fn(c) is not None:
+            # a private helper of the formatter module (not itself a formatter: not a target of the dispatch or wrapper tables) is
+            # held to the same rule where it is defined
+            known_formatters = {v[0] for v in spec["dispatch"].values()} | {v[0] for v in spec["wrappers"].values()} | set(spec["wrappers"].keys())
+            if re.search(r"^util::bitvec_format\w*::(<impl util::bitvec::BitVec>::)?\w+$", c) and prog.fn(c) is not None and c.rsplit("::", 1)[-1] not in known_formatters:
                 continue
             bad.append(c.rsplit("::", 1)[-1])
         run.check(not bad, R, "%s|bit-source|%s" % (R, name), f.loc(),
